@@ -25,7 +25,7 @@ PROP = dict(
     harness_tests=["TestC10"],
     monitors=["pay_le_target", "receive_le_collateral", "books_exact", "close_distributes", "posted_price", "price_monotone", "price_in_range",
               "price_in_range_slack", "price_below_end_at_T", "start_price", "start_record", "reserve_draw_skipped", "limit_fill_overcharge",
-              "proceeds_forwarded", "lend_bonus_stranded",
+              "proceeds_forwarded", "lend_bonus_stranded", "leftover_to_owner", "bid_refused", "leftover_to_owner_after_d7",
               "books_exact_after_d7", "pay_le_target_after_d7", "receive_le_collateral_after_d7", "close_distributes_after_d7"],
     trusted_base=[KERNEL_TB, HARNESS_TB,
                   "Base/Dec.lean (model of sdk.Dec, validated separately against the real library by harness/dec_test.go)",
